@@ -291,6 +291,56 @@ impl BobState {
     }
 }
 
+/// Verification exports (only with `--cfg iroh_docs_verif`): access to the private frame codec
+/// and to the two ends of a sync session over arbitrary streams.
+#[cfg(iroh_docs_verif)]
+pub mod verif_export {
+    use bytes::BytesMut;
+    use iroh::PublicKey;
+    use tokio::io::{AsyncRead, AsyncWrite};
+    use tokio_util::codec::{Decoder, Encoder};
+
+    pub use super::BobState;
+    use super::{Message, SyncCodec};
+    use crate::{
+        actor::SyncHandle, net::ConnectError, sync::ProtocolMessage, NamespaceId, SyncOutcome,
+    };
+
+    /// Encode the messages as `Sync` frames, one after the other, into `dst`.
+    pub fn encode_sync_frames(
+        messages: Vec<ProtocolMessage>,
+        dst: &mut BytesMut,
+    ) -> anyhow::Result<()> {
+        for message in messages {
+            SyncCodec.encode(Message::Sync(message), dst)?;
+        }
+        Ok(())
+    }
+
+    /// Decode complete `Sync` frames from `src` until more data is needed.
+    pub fn decode_sync_frames(src: &mut BytesMut) -> anyhow::Result<Vec<ProtocolMessage>> {
+        let mut out = Vec::new();
+        while let Some(message) = SyncCodec.decode(src)? {
+            match message {
+                Message::Sync(message) => out.push(message),
+                other => anyhow::bail!("unexpected frame {other:?}"),
+            }
+        }
+        Ok(out)
+    }
+
+    /// The initiator side of a session.
+    pub async fn run_alice<R: AsyncRead + Unpin, W: AsyncWrite + Unpin>(
+        writer: &mut W,
+        reader: &mut R,
+        handle: &SyncHandle,
+        namespace: NamespaceId,
+        peer: PublicKey,
+    ) -> Result<SyncOutcome, ConnectError> {
+        super::run_alice(writer, reader, handle, namespace, peer).await
+    }
+}
+
 #[cfg(test)]
 mod tests {
     use anyhow::Result;
